@@ -15,9 +15,11 @@
               D  (modes 0, 1, n_1 >= 1) game 1's board makes its first move again and calls ResetHash:
                    board-out ++ [(Hash == calculateHash)]; then a NEW start board is obtained the same
                    way as before: board-out ++ [Threefold]
-   c10reuse input  = board-in(start) ++ [K; kind_1; n_1; m..; ...]
+   c10reuse input  = board-in(start) ++ [K; kind_1; n_1; payload_1 (n_1 tokens); ...]
                      kind 0: `position startpos moves ..`, 1: `ucinewgame` first,
-                     2: `position fen <FEN of start> moves ..`; all on ONE driver
+                     2: `position fen <FEN of start> moves ..`   (payload = the moves);
+                     kind 3: `position fen <FEN of X> [moves ..]`, 4: `ucinewgame` first
+                     (payload = board-in(X) ++ the moves); all on ONE driver
             output = for every command: board-out without history ++ [Threefold; (Hash == calculateHash); len(history)] *)
 From Coq Require Import NArith ZArith List Bool.
 From Chess3 Require Import Base.Bits Model.Types Model.BoardDef Model.Board Model.Rep3 Gen.Zobrist.
@@ -89,14 +91,25 @@ Definition run_c10two (l : list Z) : list Z :=
   | _ => []
   end.
 
+(* kinds 0 1 2: the payload is the move list, the root is the start board; kinds 3 (`position fen X
+   [moves ..]`) and 4 (`ucinewgame` first): the payload is board-in(X) followed by the move list *)
+Definition reuse_root_moves (start : board) (kind : Z) (payload : list Z) : board * list N :=
+  if 3 <=? kind then
+    match decode_board payload with
+    | Some (bx, ms) => (reset_hash zob_real bx, map Z.to_N ms)
+    | None => (start, [])
+    end
+  else (start, map Z.to_N payload).
+
 Fixpoint run_reuse_cmds (start : board) (k : nat) (l : list Z) : list Z :=
   match k with
   | O => []
   | S k' =>
       match l with
-      | _kind :: n :: r =>
+      | kind :: n :: r =>
           let c := Z.to_nat n in
-          let b := run_moves zob_real start (map Z.to_N (firstn c r)) in
+          let '(root, ms) := reuse_root_moves start kind (firstn c r) in
+          let b := run_moves zob_real root ms in
           encode_board_nohist b ++ obs3 b ++ run_reuse_cmds start k' (skipn c r)
       | _ => []
       end
